@@ -3,7 +3,7 @@ M = lambda n: "(*" + P + "PID)." + n
 # environment of the turn-level scenarios: the outgoing Tell is a recorder, the harness itself runs the turns
 TURN_SUB = {M("Tell"): P + "vC16_tell", M("submitSupervision"): P + "vC16_supervision",
             "(*" + P + "dispatcher).schedule": P + "vC16_noSchedule", "(*" + P + "worker).reschedule": P + "vC16_noReschedule"}
-TURN_OPTS = {"substitute": TURN_SUB, "unwind": 6, "feas_from_iter": 1000, "select_precise": True}
+TURN_OPTS = {"substitute": TURN_SUB, "unwind": 16, "feas_from_iter": 1000, "select_precise": True}
 CHECK = {
     "id": "C16",
     "packages": ["./actor"],
@@ -12,10 +12,29 @@ CHECK = {
     "entries": [
         {"fn": P + "vC16_completeVsCancel", "replay": "model-only", "opts": {"rounds": 3, "unwind_mode": "assume", "feasibility": False}},
         {"fn": P + "vC16_sequential", "opts": {"unwind": 6}},
-        {"fn": P + "vC16_mixedModes", "replay": "model-only", "cases": {"modes": [0, 1, 2, 3], "order": list(range(12))}, "opts": TURN_OPTS},
-        {"fn": P + "vC16_retune", "replay": "model-only", "opts": TURN_OPTS},
+        {"fn": P + "vC16_mixedModes", "replay": "model-only", "cases": {"modes": [0, 1, 2, 3]}, "opts": TURN_OPTS},
+        {"fn": P + "vC16_retune", "replay": "model-only", "cases": {"policy": [1, 2], "toggle": [0, 1, 2, 3]}, "opts": TURN_OPTS},
     ],
     "opts": {"unwind": 4},
-    "explanation": "requestState.setCallback/complete/stopTimeoutIfSet, PID.registerRequestState/deregisterRequestState/completeRequest/cancelInFlightRequests with the real internal/xsync.Map: sequential bookkeeping against counters, and completeRequest (on the turn) racing cancelInFlightRequests (stop path on another goroutine) under solver-chosen interleavings.",
-    "bounds": {"requests": "<= 3", "maxInFlight": "0..2", "threads": "turn + stopper", "rounds": 3},
+    "explanation": ("requestState.setCallback/complete/stopTimeoutIfSet, PID.registerRequestState/deregisterRequestState/completeRequest/cancelInFlightRequests "
+                    "with the real internal/xsync.Map: sequential bookkeeping against counters, and completeRequest (on the turn) racing cancelInFlightRequests "
+                    "(stop path on another goroutine) under solver-chosen interleavings. Turn-level scenarios (vC16_mixedModes, vC16_retune): one requesting actor "
+                    "with its real UnboundedMailbox, system mailbox, stash buffer and context pool, run by the real doReceive / runTurn / finishOrReclaim / dispatchOne / "
+                    "enableReentrancyStash / stash / unstashAll / handleAsyncResponse / handleReceived(+recovery); its Receive issues requests through "
+                    "ReceiveContext.Request -> PID.request (newRequestConfig, WithReentrancyMode, uuid, registerRequestState, buildAsyncRequest) and retunes the policy "
+                    "through ReceiveContext.DisableReentrancy / EnableReentrancy -> installReentrancy / retune / disable; outcomes arrive as AsyncResponse messages "
+                    "(reply, error reply) or through RequestCall.Cancel -> requestState.cancel -> enqueueAsyncError. A reference model in the harness (mode each "
+                    "request was admitted with, continuation counts, policy mode/limit) is compared with the code after every arrival: no ordinary message is "
+                    "handled while a blocking request is outstanding; a request is admitted iff the effective mode is not Off and the limit is not reached; "
+                    "in-flight/blocking counters and the request table equal the model; the continuation runs exactly once, on the turn, with the reply/error/"
+                    "cancellation it was sent; at the end counters are zero, the stash is empty, every user message was handled exactly once in arrival order. "
+                    "Substituted: PID.Tell (recorder of the outgoing AsyncRequest), dispatcher.schedule / worker.reschedule (no-ops, the harness runs the turns), "
+                    "PID.submitSupervision (counter). The history shapes of the turn-level entries are enumerated concretely (cases + loops in the harness); "
+                    "only the reply payload is symbolic there."),
+    "bounds": {"requests": "<= 3 (sequential), 2 (turn-level)", "maxInFlight": "0..2 (0,2,3 in mixedModes)", "threads": "turn + stopper", "rounds": 3,
+               "mixedModes": "2 overlapping requests x {AllowAll,StashNonReentrant}^2 (default mode / per-call override) x all 12 arrival orders of 2 user messages and the 2 outcomes (reply; error reply or Cancel), mailbox drained after every arrival, throughput 3",
+               "retune": "initial mode {AllowAll,Stash} x {nothing, Disable, Disable+Enable, Enable} x initial limit 0..2 x new limit 0..2 x new mode {same, other} x override of 2nd request {none, AllowAll, Stash} x outcome order",
+               "contextPoolSize": "8192 -> 2"},
+    "assumptions": ["turn-level entries: one turn runs at a time and the mailbox is drained between two arrivals (finer interleavings of doReceive with the turn are C01/C02)",
+                    "select{case <-pool: default:} takes the case exactly when enabled (the context pool is used by this actor only)"],
 }
